@@ -78,6 +78,10 @@ func init() {
 		fr.e.yield(fr.e.curG(fr))
 		return nil
 	})
+	reg(rt+"SchedYieldOnly", func(fr *frame, args []Value) Value {
+		fr.e.sched.yieldOnly = fr.e.branch(args[0].(*Term))
+		return nil
+	})
 	reg(rt+"SetUnwind", func(fr *frame, args []Value) Value {
 		fr.e.unwind = int(fr.e.concretize(args[0].(*Term), "unwind"))
 		return nil
